@@ -71,7 +71,7 @@ def parse_markdown(md):
     return {"body": body, "summary": summary, "initially": initially}
 
 
-def run_real(db, runs, strategy, sorting, grouping, width):
+def run_real(db, runs, strategy, sorting, grouping, width, earlier=()):
     from paroxython.recommend_programs import Recommendations
 
     d = copy.deepcopy(db)
@@ -80,6 +80,8 @@ def run_real(db, runs, strategy, sorting, grouping, width):
             rec = Recommendations(d, assessment_strategy=strategy, title_format="{path}")
             for cmds in runs:
                 rec.run_pipeline(filt.to_py_cmds(cmds))
+            for (sorting_0, grouping_0) in earlier:  # a report is a function of the filter's result, not of earlier renderings
+                rec.get_markdown(span_column_width=width, sorting_strategy=sorting_0, grouping_strategy=grouping_0)
             md = rec.get_markdown(span_column_width=width, sorting_strategy=sorting, grouping_strategy=grouping)
         except Exception as exc:  # noqa
             return {"exc": type(exc).__name__}, None
@@ -127,8 +129,12 @@ def run(ctx):
             sorting = rng.choice(["by_cost_and_sloc", "lexicographic"])
             grouping = rng.choice(["by_cost_bucket", "by_cost_bucket", "none"])
             width = rng.choice([30, 10 ** 6])
-            impl, md = run_real(db, runs, strategy, sorting, grouping, width)
+            # one object rendered several times (seeded change C17-j: a rendering re-ordered the assessed programs in place)
+            earlier = [[rng.choice(["by_cost_and_sloc", "lexicographic"]), rng.choice(["by_cost_bucket", "none"])]
+                       for _ in range(rng.choice([0, 0, 1, 1, 2]))]
+            impl, md = run_real(db, runs, strategy, sorting, grouping, width, earlier)
             model = drv.call(**model_request(db, runs, strategy, sorting, grouping))
+            ctx.dist(f"earlier_renderings={len(earlier)}")
             if "exc" in model:
                 model = {"exc": model["exc"]}
             nt = "exc" not in impl and len(impl["body"]) >= 1 and (len(impl["stdout"]) < len(db["programs"]) or any(r for r in runs))
@@ -140,14 +146,14 @@ def run(ctx):
                 ctx.dist("buckets=%d" % len(impl["body"]))
                 for pb in self_consistency(impl):
                     ctx.violations.append({"what": pb, "replay": {"kind": "report", "db": db, "runs": runs, "strategy": strategy,
-                                                                  "sorting": sorting, "grouping": grouping, "impl": impl}})
+                                                                  "sorting": sorting, "grouping": grouping, "earlier": earlier, "width": width, "impl": impl}})
             if impl != model:
                 n_dis += 1
                 if n_dis <= 3:
                     ctx.violations.append({
                         "what": "the report differs from the filter's result (structured comparison)",
                         "replay": {"kind": "report", "db": db, "runs": runs, "strategy": strategy, "sorting": sorting,
-                                   "grouping": grouping, "width": width, "impl": impl, "model(=spec)": model},
+                                   "grouping": grouping, "width": width, "earlier": earlier, "impl": impl, "model(=spec)": model},
                     })
             if len(ctx.cov["samples"]) < 2 and nt and len(db["programs"]) <= 3:
                 ctx.sample({"runs": runs, "strategy": strategy, "impl_report": impl})
@@ -169,7 +175,7 @@ def run(ctx):
         drv.close()
     ctx.cov["rule"] = (
         "random well-formed databases (varying sloc) × 1-3 run_pipeline calls of 0-4 commands on ONE Recommendations × both cost strategies × both "
-        "sorting strategies × grouping on/off × span column width 30 / unbounded; the Markdown is parsed back (bucket headings and counts, program "
+        "sorting strategies × grouping on/off × span column width 30 / unbounded, after 0-2 earlier renderings of the same object under other options; the Markdown is parsed back (bucket headings and counts, program "
         "sections in order with path and cost, table rows with taxon, cost, spans/_imported_, summary lines) and compared with the Lean structured "
         "report; plus cost_bucket on a grid of 12k dyadic rationals. Non-trivial = at least one section and some command or hidden program."
     )
@@ -191,7 +197,8 @@ def replay(ctx, path):
         print(obj)
         return 0
     drv = core.Driver()
-    impl, md = run_real(obj["db"], obj["runs"], obj["strategy"], obj["sorting"], obj["grouping"], obj.get("width", 10 ** 6))
+    impl, md = run_real(obj["db"], obj["runs"], obj["strategy"], obj["sorting"], obj["grouping"], obj.get("width", 10 ** 6),
+                        obj.get("earlier", ()))
     model = drv.call(**model_request(obj["db"], obj["runs"], obj["strategy"], obj["sorting"], obj["grouping"]))
     print("impl :", json.dumps(impl, ensure_ascii=False))
     print("model:", json.dumps(model, ensure_ascii=False))
